@@ -7,6 +7,6 @@ import (
 
 func init() {
 	registry["C07"] = entry{run: func(r *monitor.Run) { c07.RunStore(r); c07.RunWire(r); c07.RunRace(r) }, level: "exploration",
-		rule: "cases = (a) histories of AddOrReplace/Remove/ClearAll on the retained store (exhaustive short histories over 5 topics + seeded random over ~80 topics), every lookup compared with a map model after each step; (b) wire scenarios: retained publishes/clears by v3/v5 publishers, then subscriptions with every filter shape x QoS x Retain Handling x RAP x shared x version incl. re-subscription, replayed PUBLISH packets compared with the model. Non-trivial = the store was non-empty / at least one retained message matched a subscription; distinct by scenario.",
+		rule: "cases = (a) histories of AddOrReplace/Remove/ClearAll on the retained store (exhaustive short histories over 5 topics + seeded random over ~80 topics), every lookup compared with a map model after each step; (b) wire scenarios: retained publishes/clears by v3/v5 publishers, then subscriptions with every filter shape x QoS x Retain Handling x RAP x shared x version incl. re-subscription, replayed PUBLISH packets compared with the model. Non-trivial = the store was non-empty / at least one retained message matched a subscription; distinct by scenario. (c) races of a retained PUBLISH against a SUBSCRIBE for its topic on two connections over a retained store that takes 3 ms per update: the acknowledged subscriber sees the kept message at least once.",
 		assumptions: []string{"reference matcher implements MQTT 4.7", "completeness of replay decided by an API-published sentinel (queue and connection are FIFO)"}}
 }
